@@ -141,7 +141,7 @@ impl Stats {
     }
   }
   pub fn note(&mut self, s: impl Into<String>) {
-    if self.notes.len() < 40 {
+    if self.notes.len() < 400 {
       self.notes.insert(s.into());
     }
   }
@@ -465,6 +465,7 @@ pub fn drive_list<C: Sync + Serialize>(
   let workers = cfg.workers().min(cases.len().max(1));
   let chunk = cases.len().div_ceil(workers.max(1)).max(1);
   let strict = cfg.strict;
+  let survey = cfg.survey;
   let results: Vec<(Stats, Vec<Violation>)> = std::thread::scope(|scope| {
     let hs: Vec<_> = cases
       .chunks(chunk)
@@ -481,7 +482,13 @@ pub fn drive_list<C: Sync + Serialize>(
                 Err(p) => Err(Fail::new(panic_signature(&p), format!("panic: {p}"))),
               };
               if let Err(f) = r {
-                if !strict && known.tolerated(&f.signature) {
+                if survey {
+                  let n = st.excluded_known.entry(format!("SURVEY {}", f.signature)).or_insert(0);
+                  *n += 1;
+                  if *n == 1 {
+                    st.notes.insert(format!("SURVEY {} :: {}", f.signature, f.message.chars().take(400).collect::<String>()));
+                  }
+                } else if !strict && known.tolerated(&f.signature) {
                   *st.excluded_known.entry(f.signature.clone()).or_insert(0) += 1;
                 } else if vs.len() < 3 {
                   vs.push(Violation {
